@@ -452,7 +452,10 @@ pub fn par_run<T: Send>(threads: usize, total: usize, chunk: usize, worker: impl
         hs.into_iter()
             .map(|h| match h.join() {
                 Ok(v) => v,
-                Err(_) => machinery_error("worker thread panicked outside a guarded case"),
+                Err(e) => {
+                    let msg = e.downcast_ref::<String>().cloned().or_else(|| e.downcast_ref::<&str>().map(|s| s.to_string())).unwrap_or_default();
+                    machinery_error(&format!("worker thread panicked outside a guarded case: {}", msg))
+                }
             })
             .collect()
     })
